@@ -55,18 +55,21 @@ const recLen = 12 // every version of every key describes 12-octet records
 
 // octetArray elements of the IANA registry used to encode the version of a
 // template in its own definition (any octets decode under them).
-var verElems = []uint16{210, 313, 314, 315, 316, 317, 326, 327, 328, 329, 330, 331, 332, 353, 354, 355, 356, 357, 358}
+var verElems = []uint16{70, 71, 72, 73, 74, 75, 76, 77, 78, 79, 90, 95, 104, 210, 262, 266, 274, 275, 313, 314, 315, 316, 317, 347, 349, 411}
 
-// versionTemplate returns version v (1-based) of the template of a key.
+// versionTemplate returns version v (1-based) of the template of a key. Two
+// consecutive versions (2k, 2k+1) use the same elements and differ only in
+// the field lengths; other pairs differ in the elements as well.
 func versionTemplate(id uint16, v int) model.Template {
 	a := 1 + (v*5)%11
-	return model.Template{ID: id, Fields: []model.FieldSpec{{ID: verElems[v%len(verElems)], Len: uint16(a)}, {ID: verElems[(v/len(verElems)+v+7)%len(verElems)], Len: uint16(recLen - a)}}}
+	e := v / 2
+	return model.Template{ID: id, Fields: []model.FieldSpec{{ID: verElems[e%len(verElems)], Len: uint16(a)}, {ID: verElems[(e/len(verElems)+e+7)%len(verElems)], Len: uint16(recLen - a)}}}
 }
 
 func versionOfFields(ids []uint16, lens []uint16, id uint16) int {
 	for v := 1; v <= 40; v++ {
 		t := versionTemplate(id, v)
-		if len(ids) == 2 && ids[0] == t.Fields[0].ID && ids[1] == t.Fields[1].ID && (lens == nil || (lens[0] == t.Fields[0].Len && lens[1] == t.Fields[1].Len)) {
+		if len(ids) == 2 && len(lens) == 2 && ids[0] == t.Fields[0].ID && ids[1] == t.Fields[1].ID && lens[0] == t.Fields[0].Len && lens[1] == t.Fields[1].Len {
 			return v
 		}
 	}
@@ -158,9 +161,15 @@ func (c *cacheAPI) lookup(k CacheKeyPlan, seq uint32) (int, string) {
 	rec := model.Record{Vals: []model.FieldVal{{Raw: []byte{1, 2, 3, 4, 5, 6, 7, 8, 9, 10, 11, 12}}}}
 	body := flowMsgBytes(c.proto, []model.Set{{Kind: model.SetData, TplID: k.ID, Recs: []model.Record{rec}}}, nil, seq)
 	ip := net.IP(append([]byte(nil), k.Addr...))
-	var ids []uint16
+	var ids, lens []uint16
 	var errs string
 	n := 0
+	vlen := func(v interface{}) uint16 {
+		if b, ok := v.([]byte); ok {
+			return uint16(len(b))
+		}
+		return 0xffff
+	}
 	if c.proto == pIPFIX {
 		m, err := ipfix.NewDecoder(ip, body).Decode(c.ic)
 		if err != nil {
@@ -171,6 +180,7 @@ func (c *cacheAPI) lookup(k CacheKeyPlan, seq uint32) (int, string) {
 			if n > 0 {
 				for _, f := range m.DataSets[0] {
 					ids = append(ids, f.ID)
+					lens = append(lens, vlen(f.Value))
 				}
 			}
 		}
@@ -184,6 +194,7 @@ func (c *cacheAPI) lookup(k CacheKeyPlan, seq uint32) (int, string) {
 			if n > 0 {
 				for _, f := range m.DataSets[0] {
 					ids = append(ids, f.ID)
+					lens = append(lens, vlen(f.Value))
 				}
 			}
 		}
@@ -197,9 +208,9 @@ func (c *cacheAPI) lookup(k CacheKeyPlan, seq uint32) (int, string) {
 	if n != 1 {
 		return -1, fmt.Sprintf("%d records decoded from one 12-octet record", n)
 	}
-	v := versionOfFields(ids, nil, k.ID)
+	v := versionOfFields(ids, lens, k.ID)
 	if v < 0 {
-		return -1, fmt.Sprintf("decoded with fields %v, not a version of this key", ids)
+		return -1, fmt.Sprintf("decoded with fields %v of lengths %v, not a version of this key", ids, lens)
 	}
 	return v, ""
 }
